@@ -64,6 +64,12 @@ pub fn all_cases() -> Vec<Case> {
             }
         }
     }
+    // redirects that never arrive
+    for api in 0..3u8 {
+        for status in [301u16, 302, 307, 308] {
+            v.push(Case { header: None, n429: 200, status, api });
+        }
+    }
     v
 }
 
@@ -96,6 +102,10 @@ async fn serve(listener: tokio::net::TcpListener, case: Case, log: Arc<Mutex<Vec
                     let mut r = format!("HTTP/1.1 {} Status\r\nContent-Length: 0\r\n", case.status);
                     if let Some(h) = &case.header {
                         r.push_str(&format!("Retry-After: {h}\r\n"));
+                    }
+                    if (300..400).contains(&case.status) {
+                        // a redirect that never arrives: each hop points at another path of this server
+                        r.push_str(&format!("Location: /hop/{n}\r\n"));
                     }
                     r.push_str("\r\n");
                     r.into_bytes()
@@ -160,6 +170,19 @@ pub fn check(c: &Case) -> Verdict {
     }
     let hint = if c.status == 429 { hint } else { None };
     v = v.class(["api:download", "api:download_with_resume(None)", "api:download_archive_index"][usize::from(c.api.min(2))]);
+    if (300..400).contains(&c.status) {
+        // The HTTP client gives up on the chain of redirects (reqwest: at most 10 hops) and reports
+        // an error that is final: one attempt, i.e. at most 11 requests.
+        return match r {
+            Err(_) => Verdict::fail("C14:cdn-429:download-does-not-return-within-120s", what),
+            Ok(Ok(_)) => Verdict::fail("C14:cdn-redirects:endless-redirects-answered-with-content", format!("{what}: Ok after {} requests", times.len())),
+            Ok(Err(_)) if times.len() > 11 => Verdict::fail(
+                "C14:cdn-redirects:redirect-error-retried",
+                format!("{what}: the server saw {} requests; following a chain of redirects takes at most 11, and 'too many redirects' is an answer, not a transient fault", times.len()),
+            ),
+            Ok(Err(_)) => v.class("endless-redirects:one-attempt"),
+        };
+    }
     if c.n429 > 3 {
         // the default policy: one attempt and three retries, then the last error
         return match r {
